@@ -101,7 +101,8 @@ type Inst struct {
 	invalid      map[model.Hash]bool
 	excluded     model.Set // accepted once, removed by an invalid mark
 	lastReported *model.Node
-	forgot       model.Set // accepted by a previous generation, not restored by Load (dropped side branches)
+	cfgAmbiguous map[model.Hash]bool // configured invalid hashes whose status after a Load is open
+	forgot       model.Set           // accepted by a previous generation, not restored by Load (dropped side branches)
 	subs         []*Sub
 
 	lastSaveWork *big.Int // work of the tip at the last completed Save (C12)
@@ -138,7 +139,8 @@ type M struct {
 	tree           *model.Tree
 	insts          []*Inst
 	ctr            uint32
-	base           int // number of base-chain headers (real-depth regime)
+	base           int          // number of base-chain headers (real-depth regime)
+	cfgInvalid     []model.Hash // Config.InvalidHeaderHashes of every instance of this history
 	bulks          int
 	actionsEnabled map[string]int // the weights of the running leg (operations it includes)
 	bulk           model.Set      // headers added by bulk growth: checked like base-chain headers (sampled heights)
@@ -186,8 +188,24 @@ func newMachine(t *rapid.T, k *evid.Case, f Focus) *M {
 		m.mbd = rapid.SampledFrom([]int{144, 144, 144, 6, 30}).Draw(t, "realMaxBranchDepth")
 	}
 	k.Op("cfg depth=%d mbd=%d", m.depth, m.mbd)
+	if f.Marks && !f.RealDepth {
+		// hashes listed as invalid in the configuration (Config.InvalidHeaderHashes): headers not
+		// seen yet (children of genesis); every Load merges the configured list into the stored one
+		for i := rapid.SampledFrom([]int{0, 0, 1, 2}).Draw(t, "configuredInvalid"); i > 0; i-- {
+			raw := m.newHeader(mainGenesis.Hash(), mainGenesis.Timestamp, 0x1d00ffff)
+			m.pending = append(m.pending, raw)
+			m.cfgInvalid = append(m.cfgInvalid, raw.Hash())
+		}
+		if len(m.cfgInvalid) > 0 {
+			k.Op("config lists %d invalid header hashes", len(m.cfgInvalid))
+			k.Class("configured_invalid_hashes")
+		}
+	}
 	store := memstore.New()
 	inst := m.newInst("A", store)
+	for _, h := range m.cfgInvalid {
+		inst.invalid[h] = true
+	}
 	if rapid.Bool().Draw(t, "startByLoad") {
 		// production start: Load on empty storage initialises with genesis
 		if err := m.load(inst); err != nil {
@@ -315,10 +333,13 @@ func (m *M) autoCleaned(inst *Inst) {
 
 func (m *M) newInst(name string, store *memstore.Store) *Inst {
 	cfg := &headers.Config{Network: bitcoin.MainNet, MaxBranchDepth: m.mbd}
+	for _, h := range m.cfgInvalid {
+		cfg.InvalidHeaderHashes = append(cfg.InvalidHeaderHashes, bitcoin.Hash32(h))
+	}
 	repo := headers.NewRepository(cfg, store)
 	repo.DisableDifficulty()
 	return &Inst{name: name, repo: repo, store: store, acc: model.Set{}, held: model.Set{},
-		invalid: map[model.Hash]bool{}, excluded: model.Set{}, forgot: model.Set{}}
+		invalid: map[model.Hash]bool{}, excluded: model.Set{}, forgot: model.Set{}, cfgAmbiguous: map[model.Hash]bool{}}
 }
 
 func (m *M) load(inst *Inst) error {
@@ -439,6 +460,8 @@ func (m *M) expected(inst *Inst, raw *model.RawHeader) (allowed map[Verdict]bool
 	if inst.invalid[raw.Hash()] {
 		allowed[VInvalid] = true
 		applicable++
+	} else if inst.cfgAmbiguous[raw.Hash()] {
+		allowed[VInvalid] = true // configured hash, unmarked and re-accepted before a Load: see loadedCopy
 	}
 	best := m.reported(inst)
 	// A child that a Load dropped from the model's obligation set may still be known to the
